@@ -51,6 +51,7 @@ for seed in seeds:
     res["demo_with_patch"]="fails" if failed else "passes"
     res["demo_with_patch_tail"]=out[-600:]
     run(f"git apply -R {d}/patch.diff", wt)
+    run("rm -rf log_files", wt)  # demos that write below the crate directory must not see the first run's files
     rc,out=run(democmd+" 2>&1 | tail -25", wt)
     ok = ("test result: ok" in out) and ("test result: FAILED" not in out)
     res["demo_without_patch"]="passes" if ok else "fails"
